@@ -155,6 +155,16 @@ def m_max(interp, *args, **kw):
 
 @model(builtins.getattr)
 def m_getattr(interp, obj, name, *default):
+    if isinstance(name, SStr) and not isinstance(name, SBytes) and not isinstance(obj, Sym):
+        # fork on equality with each attribute name the object has
+        for n in sorted(set(dir(obj))):
+            if interp.ctx.branch(name.t == z3.StringVal(n)):
+                name = n
+                break
+        else:
+            if default:
+                return default[0]
+            raise AttributeError("%r object has no attribute <symbolic>" % type(obj).__name__)
     if isinstance(name, Sym):
         raise Unsupported("getattr with a symbolic name")
     try:
@@ -392,3 +402,9 @@ def _log_noop(interp, *a, **k):
 for _n in ('debug', 'info', 'warning', 'error', 'exception', 'critical', 'log', 'warn'):
     BUILTIN_MODELS[getattr(logging.Logger, _n)] = _log_noop
     _log_noop.always = True
+
+
+import re as _re
+from . import regexmodel as _rm
+METHOD_MODELS[(_re.Pattern, 'match')] = _rm.m_match
+METHOD_MODELS[(_re.Pattern, 'fullmatch')] = _rm.m_fullmatch
